@@ -13,6 +13,8 @@ if [ -f shims/fsshim.c ]; then gcc -O2 -shared -fPIC -o shims/fsshim.so shims/fs
 if [ -x tools/regen.sh ]; then tools/regen.sh || echo "setup: regen failed (checks will report it)"; fi
 python3 -c "import sys; sys.path.insert(0,'/verif/lib'); import vlib; vlib.coq_project()"
 (cd coq && timeout 3000 make -j16 -k) || echo "setup: coq build incomplete (checks will report it)"
+# 3b. the lock-recorder workspace (patched parking_lot/lock_api), for C08
+if [ -x tools/setup_c08.sh ]; then tools/setup_c08.sh || echo "setup: C08 workspace build failed"; fi
 # 4. the real server binary (hooks off), for the server-driven checks
 if [ -f checks/.needs_server ]; then
   cargo build --offline --manifest-path /repo/Cargo.toml --target-dir /verif/.cache/target-server -p kyrodb-engine --bin kyrodb_server || echo "setup: server build failed"
